@@ -734,19 +734,17 @@ theorem parseData_fr (rec : Ty → Val → Comp) (ro : ROpts) (A : List Nat) (d 
       | error e => exact h1.err
       | ok r1 =>
         simp only
-        split
-        · exact h1
-        · have h2 := defaultLoop_fr ro A (r1.map (·.1)) d.fields hro hB s1
-          cases hr2 : defaultLoop ro (r1.map (·.1)) d.fields s1 with
-          | mk r2 s2 =>
-            rw [hr2] at h2
-            cases r2 with
-            | error e => exact (h1.seq h2).err
-            | ok kvs =>
-              simp only
-              refine (h1.seq h2).weaken (fun _ h => h) ?_
-              intro i hi
-              simpa [resIdsKV, mutIdsL_append] using hi
+        have h2 := defaultLoop_fr ro A (r1.map (·.1)) d.fields hro hB s1
+        cases hr2 : defaultLoop ro (r1.map (·.1)) d.fields s1 with
+        | mk r2 s2 =>
+          rw [hr2] at h2
+          cases r2 with
+          | error e => exact (h1.seq h2).err
+          | ok kvs =>
+            simp only
+            refine (h1.seq h2).weaken (fun _ h => h) ?_
+            intro i hi
+            simpa [resIdsKV, mutIdsL_append] using hi
   · exact fieldsFF_fr rec ro d.ci A ks xs hx hrec hro d.fields hB s
 
 /-! ### instances -/
